@@ -1,14 +1,24 @@
 #!/bin/sh
-# run every stored seeded change against its property's check (scratch worktrees under /tmp/seed and /tmp/seed2 must exist;
-# recreate one with: git -C /repo worktree add --detach <dir> HEAD && git -C <dir> apply /verif/seeded/<id>/patch.diff)
+# tools/seedall.sh [ids…]: run every stored seeded change (seeded/<ID>[-rN]/patch.diff) against the check of its own property.
+# For each one a scratch worktree of /repo's HEAD is created under ${SEEDTMP:-/tmp/seedall}, the patch applied, the check
+# run with VERIF_REPO pointing at it, and the worktree removed again. One summary line per change (also appended to
+# seeded/RESULTS.txt when SEEDWRITE=1).
 cd "$(dirname "$0")/.."
-for d in seeded/C*; do
-  id=$(basename $d); p=${id%-r2}
-  root=/tmp/seed; [ "$id" != "$p" ] && root=/tmp/seed2
-  [ -d $root/$p/repo ] || { echo "$id: no worktree"; continue; }
-  out=$(VERIF_REPO=$root/$p/repo ./check $p 2>&1 | grep -v "^KNOWN-FINDING")
+T=${SEEDTMP:-/tmp/seedall}; mkdir -p $T
+list="$*"; [ -z "$list" ] && list=$(ls seeded | grep '^C')
+[ "$SEEDWRITE" = 1 ] && : > seeded/RESULTS.txt
+for id in $list; do
+  p=${id%%-*}
+  wt=$T/$id
+  git -C /repo worktree remove --force $wt >/dev/null 2>&1; rm -rf $wt
+  git -C /repo worktree add --detach $wt HEAD >/dev/null 2>&1 || { echo "$id: cannot create worktree"; continue; }
+  if ! git -C $wt apply /verif/seeded/$id/patch.diff 2>/dev/null; then echo "$id: patch does not apply"; git -C /repo worktree remove --force $wt; continue; fi
+  out=$(VERIF_REPO=$wt ./check $p 2>&1 | grep -v "^KNOWN-FINDING")
   v=$(echo "$out" | grep -c "^VIOLATION")
   nf=$(echo "$out" | grep "^VIOLATION" | grep -c "no-failing-input-found")
   first=$(echo "$out" | grep "oracle:\|correspondence:\|broken" | head -1 | cut -c1-160)
-  echo "$id: violation=$v no-failing-input=$nf | $first"
+  line="$id: violation=$v no-failing-input=$nf | $first"
+  echo "$line"; [ "$SEEDWRITE" = 1 ] && echo "$line" >> seeded/RESULTS.txt
+  git -C /repo worktree remove --force $wt >/dev/null 2>&1; rm -rf $wt
 done
+git -C /repo worktree prune
